@@ -21,6 +21,7 @@ MODULES = {
     "C15": "props.c15",
     "C16": "props.c16",
     "C17": "props.c17",
+    "C18": "props.c18",
 }
 
 if __name__ == "__main__":
